@@ -30,6 +30,10 @@ THEOREMS = {"Artap.Props.C14": [
     "C14_worstcase_call_budget", "C14_gradient_forward_difference", "C14_gradient_budget",
     "C14_gradient_no_reprocessing", "C14_worstcase_with_transient_failures", "C14_gradient_with_transient_failures"]}
 AXIOMS_OK = []
+# second tie to the code (tools/py2coq.py guard mode + coq/theories/GenProofs): the test that decides between overwriting and
+# appending the sensitivity entry in WorstCaseEvaluator.run is translated on every run and proved equal to the model's (F11)
+from harness.core import translated_specs
+TRANSLATED = translated_specs("WorstCaseGuardGen")
 TRUSTED = [
     "Coq 8.16.1 kernel, vm_compute for model evaluation (no native_compute)",
     "hand-written model Model/Evaluators.v (heap of Individual objects + the two work lists) tied to operators.py "
